@@ -53,7 +53,8 @@ pub const K_STRING_ROUND_TRIP: u8 = 27;
 pub const K_EQ_ORD_CHECK: u8 = 28;
 pub const K_PUSH_SELF_CLONE: u8 = 29;
 pub const K_PUSH_BIG: u8 = 30;
-pub const N_KINDS: u8 = 31;
+pub const K_READ_TO_TENDRIL: u8 = 31;
+pub const N_KINDS: u8 = 32;
 
 pub fn kind_name(k: u8) -> &'static str {
     match k {
@@ -88,6 +89,7 @@ pub fn kind_name(k: u8) -> &'static str {
         K_EQ_ORD_CHECK => "eq/ord",
         K_PUSH_SELF_CLONE => "push_tendril(clone of self)",
         K_PUSH_BIG => "push_big",
+        K_READ_TO_TENDRIL => "read_to_tendril",
         _ => "?",
     }
 }
@@ -300,6 +302,51 @@ impl FmtSpec for fmt::Bytes {
             K_EXTEND_WITH_BYTE => {
                 t.extend_with_byte(op.b, op.c as u8);
                 model.extend(std::iter::repeat(op.c as u8).take(op.b as usize));
+                true
+            },
+            K_READ_TO_TENDRIL => {
+                // a scripted reader: short reads of op.b bytes, `Interrupted` on every third call
+                // (bit 0 of op.c), a hard error once (op.c / 4) % (len + 1) bytes were delivered
+                // (bit 1).  Whatever happens, the tendril grows by exactly the bytes delivered.
+                use tendril::ReadExt;
+                struct R<'a> {
+                    data: &'a [u8],
+                    pos: usize,
+                    step: usize,
+                    plan: u32,
+                    err_at: usize,
+                    calls: u32,
+                }
+                impl<'a> std::io::Read for R<'a> {
+                    fn read(&mut self, buf: &mut [u8]) -> std::io::Result<usize> {
+                        self.calls += 1;
+                        if self.plan & 1 == 1 && self.calls % 3 == 1 {
+                            return Err(std::io::Error::new(std::io::ErrorKind::Interrupted, "simulated EINTR"));
+                        }
+                        let mut n = self.step.max(1).min(buf.len()).min(self.data.len() - self.pos);
+                        if self.plan & 2 == 2 {
+                            if self.pos >= self.err_at {
+                                return Err(std::io::Error::new(std::io::ErrorKind::WouldBlock, "simulated hard error"));
+                            }
+                            n = n.min(self.err_at - self.pos);
+                        }
+                        buf[..n].copy_from_slice(&self.data[self.pos..self.pos + n]);
+                        self.pos += n;
+                        Ok(n)
+                    }
+                }
+                let err_at = (op.c as usize / 4) % (op.data.len() + 1);
+                let mut r = R { data: &op.data, pos: 0, step: op.b as usize, plan: op.c, err_at, calls: 0 };
+                let res = r.read_to_tendril(t);
+                model.extend_from_slice(&op.data[..r.pos]);
+                let ok = match res {
+                    Ok(n) => op.c & 2 == 0 && n == op.data.len() && r.pos == op.data.len(),
+                    Err(_) => op.c & 2 == 2,
+                };
+                if !ok {
+                    // a wrong return value is made visible as a value difference
+                    model.extend_from_slice(b"<read_to_tendril returned the wrong result>");
+                }
                 true
             },
             _ => false,
@@ -595,11 +642,18 @@ pub fn gen_history<F: FmtSpec>(rng: &mut Rng, max_ops: usize) -> Vec<Op> {
             k if k < N_KINDS => k,
             _ => K_CLONE,
         };
+        let kind = if rng.chance(1, 40) { K_READ_TO_TENDRIL } else { kind };
         let a = rng.below(POOL) as u32;
         let mut b = rng.below(POOL) as u32;
         let mut c = rng.below(80) as u32;
         let mut data = vec![];
         match kind {
+            K_READ_TO_TENDRIL => {
+                let l = *rng.pick(&[0usize, 1, 15, 16, 17, 31, 32, 33, 63, 64, 65, 100, 200, 500]);
+                data = (0..l).map(|_| 1 + rng.below(255) as u8).collect();
+                b = *rng.pick(&[1u32, 3, 7, 16, 32, 1000]);
+                c = rng.below(4000) as u32;
+            },
             K_WITH_CAPACITY | K_RESERVE => b = pick_len(rng) as u32,
             K_FROM_BYTES | K_TRY_PUSH_BYTES | K_REINTERPRET_FROM_BYTES | K_WRITE_ALL | K_EXTEND_ITER => {
                 data = if rng.chance(1, 6) { invalid_bytes(rng) } else { let l = pick_len(rng); F::gen_valid(rng, l) };
@@ -992,7 +1046,7 @@ pub fn run_history<F: FmtSpec, A: Atomicity>(ops: &[Op], obs: &mut dyn Observer)
                 let (t, m) = (&mut pool[i], &mut model[i]);
                 F::deref_mut_write(t, m, op.b, op.c as u8);
             },
-            K_WRITE_ALL | K_EXTEND_WITH_BYTE => {
+            K_WRITE_ALL | K_EXTEND_WITH_BYTE | K_READ_TO_TENDRIL => {
                 let (t, m) = (&mut pool[i], &mut model[i]);
                 F::bytes_only(t, m, op);
             },
